@@ -263,14 +263,15 @@ Fixpoint check_from (cfg : qcfg) (s : qstate) (i : N) (os : list qobs) : list N 
 Definition check_script (cfg : qcfg) (os : list qobs) : list N := check_from cfg [] 0 os.
 
 (* ================================================================== PART 2: interleavings *)
-Record shared := mkSh { sh_mutex : option bool; sh_count : N; sh_live : list N }.
+(* sh_mutex: the id (position in the list of concurrent calls) of the call holding tenant_quota_lock *)
+Record shared := mkSh { sh_mutex : option nat; sh_count : N; sh_live : list N }.
 
 (* ---- Insert thread *)
 Inductive ipc := ILock | IExists | IReserve | ICold | IToken | IRelease | IUnlock | IDone.
 Record ithr := mkI { i_pc : ipc; i_id : N; i_ok : bool; i_ex : bool; i_failed : bool; i_refused : bool }.
 Definition istart (id : N) (ok : bool) : ithr := mkI ILock id ok false false false.
 Definition ipc_set (th : ithr) (pc : ipc) : ithr := mkI pc (i_id th) (i_ok th) (i_ex th) (i_failed th) (i_refused th).
-Definition istep (limit : N) (me : bool) (sh : shared) (th : ithr) : option (shared * ithr) :=
+Definition istep (limit : N) (me : nat) (sh : shared) (th : ithr) : option (shared * ithr) :=
   match i_pc th with
   | ILock => match sh_mutex sh with
              | None => Some (mkSh (Some me) (sh_count sh) (sh_live sh), ipc_set th IExists)
@@ -300,7 +301,7 @@ Inductive dpc := DLock | DMeta | DEngine | DDecr | DUnlock | DDone.
 Record dthr := mkD { d_pc : dpc; d_id : N; d_existed : bool; d_mutex : bool }.
 Definition dstart (id : N) : dthr := mkD DLock id false true.
 Definition dstart_old (id : N) : dthr := mkD DLock id false false.
-Definition dstep (me : bool) (sh : shared) (th : dthr) : option (shared * dthr) :=
+Definition dstep (me : nat) (sh : shared) (th : dthr) : option (shared * dthr) :=
   match d_pc th with
   | DLock => if d_mutex th
              then match sh_mutex sh with
@@ -323,7 +324,7 @@ Inductive bpc := BLock | BFilter | BCount | BEngine | BDecr | BUnlock | BDone.
 Record bthr := mkB { b_pc : bpc; b_ids : list N; b_n : N; b_mutex : bool }.
 Definition bstart (ids : list N) : bthr := mkB BLock ids 0 true.
 Definition bstart_old (ids : list N) : bthr := mkB BLock ids 0 false.
-Definition bstep (me : bool) (sh : shared) (th : bthr) : option (shared * bthr) :=
+Definition bstep (me : nat) (sh : shared) (th : bthr) : option (shared * bthr) :=
   match b_pc th with
   | BLock => if b_mutex th
              then match sh_mutex sh with
@@ -346,7 +347,7 @@ Inductive lpc := LLock | LNew | LReserve | LLoad | LRecount | LRelease | LUnlock
 Record lthr := mkL { l_pc : lpc; l_items : list (N * bool); l_todo : list (N * bool); l_new : list N;
                      l_reserved : N; l_now : N; l_refused : bool }.
 Definition lstart (items : list (N * bool)) : lthr := mkL LLock items items [] 0 0 false.
-Definition lstep (limit : N) (me : bool) (sh : shared) (th : lthr) : option (shared * lthr) :=
+Definition lstep (limit : N) (me : nat) (sh : shared) (th : lthr) : option (shared * lthr) :=
   let upd pc := mkL pc (l_items th) (l_todo th) (l_new th) (l_reserved th) (l_now th) (l_refused th) in
   match l_pc th with
   | LLock => match sh_mutex sh with
@@ -383,7 +384,7 @@ Inductive thr :=
 | TL (x : lthr)
 | TD (x : dthr)
 | TB (x : bthr).
-Definition tstep (limit : N) (me : bool) (sh : shared) (th : thr) : option (shared * thr) :=
+Definition tstep (limit : N) (me : nat) (sh : shared) (th : thr) : option (shared * thr) :=
   match th with
   | TI x => match istep limit me sh x with Some (sh', x') => Some (sh', TI x') | None => None end
   | TBI cur rest =>
@@ -406,12 +407,12 @@ Definition tdone (th : thr) : bool :=
   end.
 
 Record conf := mkConf { c_sh : shared; c_a : thr; c_b : thr }.
-(* who = false: thread a moves (thread id false); who = true: thread b (thread id true) *)
+(* who = false: thread a moves (thread id 0); who = true: thread b (thread id 1) *)
 Definition cstep (limit : N) (c : conf) (who : bool) : conf :=
-  if who then match tstep limit true (c_sh c) (c_b c) with
+  if who then match tstep limit 1%nat (c_sh c) (c_b c) with
               | Some (sh, b') => mkConf sh (c_a c) b'
               | None => c end
-  else match tstep limit false (c_sh c) (c_a c) with
+  else match tstep limit 0%nat (c_sh c) (c_a c) with
        | Some (sh, a') => mkConf sh a' (c_b c)
        | None => c end.
 Definition crun (limit : N) (sched : list bool) (c : conf) : conf := fold_left (cstep limit) sched c.
@@ -420,3 +421,39 @@ Definition cstart (count : N) (live : list N) (a b : thr) : conf := mkConf (mkSh
 (* drift of the counter against the live set at the end of a run *)
 Definition final_count (c : conf) : N := sh_count (c_sh c).
 Definition final_live (c : conf) : N := len (sh_live (c_sh c)).
+
+(* ---- any number of concurrent calls of one tenant: thread id = position in the list *)
+Fixpoint set_nth {A} (l : list A) (i : nat) (x : A) : list A :=
+  match l, i with
+  | [], _ => []
+  | _ :: r, O => x :: r
+  | a :: r, S j => a :: set_nth r j x
+  end.
+Record mconf := mkM { m_sh : shared; m_ths : list thr }.
+(* the scheduler picks call i; a blocked / finished / non-existing call's turn is a no-op *)
+Definition mstep (limit : N) (c : mconf) (i : nat) : mconf :=
+  match nth_error (m_ths c) i with
+  | None => c
+  | Some th => match tstep limit i (m_sh c) th with
+               | Some (sh, th') => mkM sh (set_nth (m_ths c) i th')
+               | None => c
+               end
+  end.
+Definition mrun (limit : N) (sched : list nat) (c : mconf) : mconf := fold_left (mstep limit) sched c.
+Definition mquiescent (c : mconf) : bool := forallb tdone (m_ths c).
+Definition mstart (count : N) (live : list N) (ths : list thr) : mconf := mkM (mkSh None count live) ths.
+
+(* ---- several tenants: every call belongs to a tenant and works on that tenant's counter / documents /
+   mutex (tenant_vector_counts[t], the tenant's id range, tenant_quota_locks[t]); `limit t` = max_vectors *)
+Record wconf := mkW { w_sh : N -> shared; w_ths : list (N * thr) }.
+Definition wset (w : N -> shared) (t : N) (sh : shared) : N -> shared := fun u => if u =? t then sh else w u.
+Definition wstep (limit : N -> N) (c : wconf) (i : nat) : wconf :=
+  match nth_error (w_ths c) i with
+  | None => c
+  | Some (t, th) => match tstep (limit t) i (w_sh c t) th with
+                    | Some (sh, th') => mkW (wset (w_sh c) t sh) (set_nth (w_ths c) i (t, th'))
+                    | None => c
+                    end
+  end.
+Definition wrun (limit : N -> N) (sched : list nat) (c : wconf) : wconf := fold_left (wstep limit) sched c.
+Definition wquiescent (c : wconf) : bool := forallb (fun p => tdone (snd p)) (w_ths c).
